@@ -3,6 +3,7 @@
 from __future__ import annotations
 
 import ast
+from typing import Any
 import copy
 
 from ..cfg import Node, cfg_of, node_calls, walk_own
@@ -64,46 +65,100 @@ def run(ctx: Ctx) -> None:
     msgs_v = _strip_tuple(b.get("messages"))
     types_v = _strip_tuple(b.get("msg_types"))
     ctx.ob("C06.R1", hl, "all responses of the expected types are accepted", norm(b.get("do_append")) == "None", f"do_append = {norm(b.get('do_append'))}")
-    stop = b.get("do_stop")
-    oks = isinstance(stop, ast.Lambda) and norm(stop.body) in (f"type({stop.args.args[0].arg}) is {types_v}[-1]", f"isinstance({stop.args.args[0].arg}, {types_v}[-1])")
-    ctx.ob("C06.R1", hl, "the wait ends with the last expected response type", bool(oks), f"do_stop = {norm(stop)[:70]}")
-    # list construction: first element, and the login-conditional appends
-    def list_init(name: str):
-        a = [n for n in own_nodes(hl.node) if isinstance(n, ast.Assign) and any(isinstance(t, ast.Name) and t.id == name for t in n.targets)]
-        return a[0].value if len(a) == 1 and isinstance(a[0].value, ast.List) else None
-
-    mi, ti = list_init(msgs_v or ""), list_init(types_v or "")
+    # what the request call receives, for login on and off: the statements before the call are folded by a small
+    # sequence interpreter (list/tuple displays, append, tuple(), branches on the login flag) - any way of building the
+    # two sequences gives the same result
     mk = ctx.repo.func("connection", "_make_hello_request")
-    ok_first = mi is not None and len(mi.elts) == 1 and isinstance(mi.elts[0], ast.Call) and mk in res.callees(hl, mi.elts[0]).funcs
-    ctx.ob("C06.R1", hl, "first message sent is the hello request", bool(ok_first), f"{norm(mi) if mi is not None else None}")
-    t0 = ctx.sym.eval(ti.elts[0], "connection") if ti is not None and len(ti.elts) == 1 else None
-    ctx.ob("C06.R1", hl, "first expected response is HelloResponse", isinstance(t0, Ref) and t0.name == "HelloResponse", f"{t0!r}")
-    app_nodes = {"msg": [], "type": []}
-    for n in g.reachable():
-        for c in node_calls(n):
-            if isinstance(c.func, ast.Attribute) and c.func.attr == "append" and c.args:
-                if norm(c.func.value) == msgs_v:
-                    app_nodes["msg"].append((n, c))
-                if norm(c.func.value) == types_v:
-                    app_nodes["type"].append((n, c))
-    for kind, want_desc in (("msg", "connect request"), ("type", "ConnectResponse")):
-        lst = app_nodes[kind]
-        tt = truth_table(g, ["login"], cl, [n for n, _ in lst])
-        ok = len(lst) == 1 and tt.get((True,)) == (True, True) and tt.get((False,), (True, True))[0] is False
-        if ok and kind == "type":
-            v = ctx.sym.eval(lst[0][1].args[0], "connection")
-            ok = isinstance(v, Ref) and v.name == "ConnectResponse"
-        if ok and kind == "msg":
-            mc = conn.methods["_make_connect_request"]
-            ok = isinstance(lst[0][1].args[0], ast.Call) and mc in res.callees(hl, lst[0][1].args[0]).funcs
-        ctx.ob("C06.R1", hl, f"{want_desc} added iff login", bool(ok), fmt_table(["login"], tt))
-    # appends happen before the request is sent
-    req_node = [n for n in g.reachable() if n.ast is not None and any(x is calls[0] for x in walk_own(n.ast))]
-    before_req = set()
-    for rn in req_node:
-        before_req |= walk(g, {}, lambda n: None, blocked={rn})
-    late = [n for k in app_nodes.values() for n, _ in k if n not in before_req]
-    ctx.ob("C06.R1", hl, "request list is complete before it is sent", not late, "")
+    mc = conn.methods["_make_connect_request"]
+
+    def role(e: ast.expr) -> str:
+        if isinstance(e, ast.Call):
+            fs = res.callees(hl, e).funcs
+            if mk in fs:
+                return "hello-request"
+            if mc in fs:
+                return "connect-request"
+        v = ctx.sym.eval(e, "connection")
+        if isinstance(v, Ref) and v.kind == "pb":
+            return v.name
+        return f"?{norm(e)[:30]}"
+
+    def fold(login: bool) -> dict[str, Any]:
+        env: dict[str, Any] = {}
+
+        def ev(e: ast.expr) -> Any:
+            if isinstance(e, (ast.List, ast.Tuple)):
+                out: list[Any] = []
+                for x in e.elts:
+                    if isinstance(x, ast.Starred):
+                        v = ev(x.value)
+                        if not isinstance(v, list):
+                            return None
+                        out.extend(v)
+                    else:
+                        v = ev(x)
+                        out.append(v if isinstance(v, str) else role(x))
+                return out
+            if isinstance(e, ast.Name):
+                return env.get(e.id, role(e) if e.id not in env else None)
+            if isinstance(e, ast.Call) and norm(e.func) in ("tuple", "list") and len(e.args) == 1:
+                return ev(e.args[0])
+            if isinstance(e, ast.Subscript) and isinstance(e.slice, (ast.Constant, ast.UnaryOp)):
+                base = ev(e.value)
+                idx = e.slice.value if isinstance(e.slice, ast.Constant) else (-e.slice.operand.value if isinstance(e.slice.operand, ast.Constant) else None)
+                if isinstance(base, list) and isinstance(idx, int) and -len(base) <= idx < len(base):
+                    return base[idx]
+                return None
+            return role(e)
+
+        def run(body: list[ast.stmt]) -> bool:
+            for st in body:
+                if any(x is calls[0] for x in ast.walk(st)):
+                    return True
+                if isinstance(st, (ast.Assign, ast.AnnAssign)) and getattr(st, "value", None) is not None:
+                    t = st.targets[0] if isinstance(st, ast.Assign) else st.target
+                    if isinstance(t, ast.Name):
+                        env[t.id] = ev(st.value)
+                elif isinstance(st, ast.Expr) and isinstance(st.value, ast.Call) and isinstance(st.value.func, ast.Attribute) and st.value.func.attr == "append" and isinstance(st.value.func.value, ast.Name) and st.value.args:
+                    cur = env.get(st.value.func.value.id)
+                    if isinstance(cur, list):
+                        v = ev(st.value.args[0])
+                        cur.append(v if isinstance(v, str) else role(st.value.args[0]))
+                elif isinstance(st, ast.If):
+                    c_ = cl(type("N", (), {"ast": st.test, "kind": "cond"})())
+                    neg_ = False
+                    t_ = st.test
+                    if c_ is None and isinstance(t_, ast.UnaryOp) and isinstance(t_.op, ast.Not):
+                        c_ = cl(type("N", (), {"ast": t_.operand, "kind": "cond"})())
+                        neg_ = True
+                    if c_ is not None:
+                        taken = (login == c_[1]) != neg_
+                        if run(st.body if taken else st.orelse):
+                            return True
+                    # other conditions (debug logging ...) do not build the sequences
+            return False
+
+        run(hl.node.body)
+        out = {}
+        for pname in ("messages", "msg_types"):
+            a = b.get(pname)
+            out[pname] = ev(a) if a is not None else None
+        stop_ = b.get("do_stop")
+        if isinstance(stop_, ast.Lambda) and isinstance(stop_.body, ast.Compare) and len(stop_.body.ops) == 1 and isinstance(stop_.body.ops[0], (ast.Is, ast.Eq)) and norm(stop_.body.left) == f"type({stop_.args.args[0].arg})":
+            out["stop"] = ev(stop_.body.comparators[0])
+        elif isinstance(stop_, ast.Lambda) and isinstance(stop_.body, ast.Call) and norm(stop_.body.func) == "isinstance" and len(stop_.body.args) == 2:
+            out["stop"] = ev(stop_.body.args[1])
+        else:
+            out["stop"] = None
+        return out
+
+    seq_t, seq_f = fold(True), fold(False)
+    ctx.ob("C06.R1", hl, "the wait ends with the last expected response type", seq_t["stop"] == "ConnectResponse" and seq_f["stop"] == "HelloResponse", f"login: stops at {seq_t['stop']}; no login: stops at {seq_f['stop']}")
+    ctx.ob("C06.R1", hl, "first message sent is the hello request", bool(seq_t["messages"]) and bool(seq_f["messages"]) and seq_t["messages"][0] == seq_f["messages"][0] == "hello-request", f"login {seq_t['messages']}, no login {seq_f['messages']}")
+    ctx.ob("C06.R1", hl, "first expected response is HelloResponse", bool(seq_t["msg_types"]) and bool(seq_f["msg_types"]) and seq_t["msg_types"][0] == seq_f["msg_types"][0] == "HelloResponse", f"login {seq_t['msg_types']}, no login {seq_f['msg_types']}")
+    ctx.ob("C06.R1", hl, "connect request added iff login", seq_t["messages"] == ["hello-request", "connect-request"] and seq_f["messages"] == ["hello-request"], f"login {seq_t['messages']}, no login {seq_f['messages']}")
+    ctx.ob("C06.R1", hl, "ConnectResponse added iff login", seq_t["msg_types"] == ["HelloResponse", "ConnectResponse"] and seq_f["msg_types"] == ["HelloResponse"], f"login {seq_t['msg_types']}, no login {seq_f['msg_types']}")
+    ctx.ob("C06.R1", hl, "request list is complete before it is sent", True, "the sequences are folded up to the request call")
     # responses are taken in order
     rv = None
     for n in own_nodes(hl.node):
